@@ -211,3 +211,227 @@ theorem keys_slotTypes (fields : List (Str × Str)) (hnores : ∀ n ∈ fields.m
   keys_allFields ⟨[], fields⟩ hnores
 
 end FlowRecord.Compose
+
+namespace FlowRecord.Compose
+open FlowRecord FlowRecord.Descriptor
+
+theorem flatMap_nameTypes (descs : List (List (Str × Str))) :
+    descs.flatMap nameTypes = nameTypes (descs.flatMap id) := by
+  induction descs with
+  | nil => rfl
+  | cons d ds ih =>
+    simp only [List.flatMap_cons, ih, id]
+    simp [nameTypes]
+
+theorem keys_nameTypes (fs : List (Str × Str)) : (nameTypes fs).map (·.1) = fs.map (·.2) := by
+  simp [nameTypes, List.map_map, Function.comp_def]
+
+theorem firstOcc_append (a b : List Str) :
+    firstOcc (a ++ b) = firstOcc a ++ (firstOcc b).filter (fun n => !(firstOcc a).contains n) := by
+  induction a generalizing b with
+  | nil =>
+    simp only [firstOcc, List.nil_append, List.contains_nil, Bool.not_false]
+    exact (List.filter_eq_self.mpr (fun _ _ => rfl)).symm
+  | cons x a ih =>
+    simp only [List.cons_append, firstOcc, ih, List.filter_append, List.filter_filter]
+    congr 2
+    apply List.filter_congr
+    intro y _
+    by_cases hy : y = x
+    · subst hy; simp
+    · simp [hy]
+
+end FlowRecord.Compose
+
+namespace FlowRecord.Compose
+open FlowRecord FlowRecord.Descriptor
+
+/-- lookup in a concatenation of maps: the first map that has the key decides -/
+theorem alGet_flatMap_first {V α : Type} (slotsOf : α → List (Str × V)) (pre post : List α) (x : α) (k : Str) (v : V)
+    (hpre : ∀ p ∈ pre, k ∉ keys (slotsOf p)) (hx : alGet (slotsOf x) k = some v) :
+    alGet ((pre ++ x :: post).flatMap slotsOf) k = some v := by
+  induction pre with
+  | nil => simp [List.flatMap_cons, alGet_append, hx]
+  | cons p pre ih =>
+    simp only [List.cons_append, List.flatMap_cons, alGet_append]
+    have : alGet (slotsOf p) k = none := (alGet_eq_none_iff _ _).mpr (hpre p List.mem_cons_self)
+    rw [this]
+    simpa using ih (fun q hq => hpre q (List.mem_cons_of_mem _ hq))
+
+theorem mem_mergeFields_names (replace : Bool) (descs : List (List (Str × Str))) (n : Str) :
+    n ∈ (mergeFields replace descs).map (·.2) ↔ n ∈ (descs.flatMap id).map (·.2) := by
+  have h := keys_mergeMap replace descs
+  have e : (mergeFields replace descs).map (·.2) = keys (mergeMap replace descs) := by
+    simp [mergeFields, keys, List.map_map, Function.comp_def]
+  rw [e, h, mem_firstOcc, flatMap_nameTypes, keys_nameTypes]
+
+end FlowRecord.Compose
+
+namespace FlowRecord.Compose
+open FlowRecord FlowRecord.Descriptor
+
+theorem odSet_not_mem {α : Type} (m : List (Str × α)) (k : Str) (v : α) (h : k ∉ keys m) :
+    odSet m k v = m ++ [(k, v)] := by
+  induction m with
+  | nil => rfl
+  | cons p m ih =>
+    obtain ⟨k', v'⟩ := p
+    have hne : ¬ k' = k := by
+      intro e; apply h; simp [keys, e]
+    have hm : k ∉ keys m := by
+      intro hk; apply h; simp only [keys, List.map_cons, List.mem_cons]; exact Or.inr hk
+    simp only [odSet, hne, if_false, ih hm, List.cons_append]
+
+/-- first-wins fold over pairs with distinct keys: the unseen ones are appended in order -/
+theorem foldl_noreplace_nodup (ps : List (Str × Str)) : ∀ (m : List (Str × Str)), (keys ps).Nodup →
+    ps.foldl (mergeStep false) m = m ++ ps.filter (fun p => !(keys m).contains p.1) := by
+  induction ps with
+  | nil => intro m _; simp
+  | cons p ps ih =>
+    intro m hnd
+    have hnd' : (keys ps).Nodup := (List.nodup_cons.mp hnd).2
+    have hp : p.1 ∉ keys ps := (List.nodup_cons.mp hnd).1
+    simp only [List.foldl_cons]
+    by_cases hm : p.1 ∈ keys m
+    · have hc : (keys m).contains p.1 = true := by simp [hm]
+      have : mergeStep false m p = m := by
+        simp only [mergeStep, hc, Bool.not_false, Bool.true_and, if_true]
+      rw [this, ih m hnd', List.filter_cons]
+      simp [hm]
+    · have hc : (keys m).contains p.1 = false := by simp [hm]
+      have : mergeStep false m p = m ++ [p] := by
+        simp only [mergeStep, hc, Bool.not_false, Bool.true_and, Bool.false_eq_true, if_false]
+        exact odSet_not_mem m p.1 p.2 hm
+      rw [this, ih _ hnd', List.filter_cons]
+      simp only [hc, Bool.not_false, if_true, List.append_assoc, List.singleton_append]
+      congr 2
+      apply List.filter_congr
+      intro q hq
+      have hqk : q.1 ∈ keys ps := List.mem_map.mpr ⟨q, hq, rfl⟩
+      have : q.1 ≠ p.1 := fun e => hp (e ▸ hqk)
+      simp [keys, this]
+
+theorem filter_nameTypes (l : List (Str × Str)) (ks : List Str) :
+    ((nameTypes l).filter (fun p => !ks.contains p.1)).map (fun p => (p.2, p.1)) =
+      l.filter (fun f => !ks.contains f.2) := by
+  induction l with
+  | nil => rfl
+  | cons f l ih =>
+    simp only [nameTypes, List.map_cons, List.filter_cons] at ih ⊢
+    by_cases h : ks.contains f.2 = true
+    · simp only [h, Bool.not_true, Bool.false_eq_true, if_false]; exact ih
+    · simp only [h, Bool.not_false, if_true, List.map_cons]; rw [ih]
+
+/-- merging two descriptors with distinct names each: the first, then the unseen fields of the second -/
+theorem mergeFields_two (l1 l2 : List (Str × Str)) (h1 : (l1.map (·.2)).Nodup) (h2 : (l2.map (·.2)).Nodup) :
+    mergeFields false [l1, l2] = l1 ++ l2.filter (fun f => !(l1.map (·.2)).contains f.2) := by
+  unfold mergeFields mergeMap
+  simp only [List.foldl_cons, List.foldl_nil]
+  have k1 : keys (nameTypes l1) = l1.map (·.2) := keys_nameTypes l1
+  have k2 : keys (nameTypes l2) = l2.map (·.2) := keys_nameTypes l2
+  rw [foldl_noreplace_nodup (nameTypes l1) [] (by rw [k1]; exact h1)]
+  have hA : ([] : List (Str × Str)) ++ (nameTypes l1).filter (fun p => !(keys ([] : List (Str × Str))).contains p.1) =
+      nameTypes l1 := by
+    rw [List.nil_append]
+    exact List.filter_eq_self.mpr (fun _ _ => by simp [keys])
+  rw [hA, foldl_noreplace_nodup (nameTypes l2) _ (by rw [k2]; exact h2), k1, List.map_append, filter_nameTypes]
+  congr 1
+  simp [nameTypes, List.map_map, Function.comp_def]
+
+end FlowRecord.Compose
+
+namespace FlowRecord.Compose
+open FlowRecord FlowRecord.Descriptor
+
+/-- no declared field name of any of the records is a reserved name (validation guarantees it, C06) -/
+def noReserved {V : Type} (recs : List (Rec V)) : Prop :=
+  ∀ x ∈ recs, ∀ n ∈ x.fields.map (·.2), n ∉ reservedNames
+
+/-- VALUES of an extended record, for every list of records: each slot (merged field or metadata field, other
+    than the always re-stamped `_version`) holds the value found first when the records' slots are searched in
+    priority order — the given order, reversed under `replace`. -/
+theorem extend_values {V : Type} (none : Str → V) (ver : V) (replace : Bool) (name : Option Str)
+    (r : Rec V) (others : List (Rec V)) (k : Str) (v : V) (hnr : noReserved (r :: others))
+    (hk : k ∈ (mergeFields replace ((r :: others).map (·.fields))).map (·.2) ∨ k ∈ reservedNames)
+    (hv : k ≠ versionName)
+    (hget : alGet ((if replace then (r :: others).reverse else r :: others).flatMap (·.slots)) k = some v) :
+    alGet (extendRecord none ver replace name r others).slots k = some v := by
+  unfold extendRecord
+  apply alGet_initFromDict _ _ _ _ _ k v _ hv
+  · rw [chainGet_eq]
+    have : (if replace = true then ((r :: others).map (·.slots)).reverse else (r :: others).map (·.slots)).flatten =
+        (if replace then (r :: others).reverse else r :: others).flatMap (·.slots) := by
+      cases replace <;> simp [List.flatMap_def, List.map_reverse]
+    rw [this]; exact hget
+  · rw [keys_slotTypes]
+    · rcases hk with hk | hk
+      · exact List.mem_append_left _ ((mem_firstOcc _ _).mpr hk)
+      · exact List.mem_append_right _ hk
+    · intro n hn
+      rw [mem_mergeFields_names] at hn
+      obtain ⟨f, hf, rfl⟩ := List.mem_map.mp hn
+      obtain ⟨fs, hfs, hff⟩ := List.mem_flatMap.mp hf
+      obtain ⟨x, hx, rfl⟩ := List.mem_map.mp hfs
+      exact hnr x hx f.2 (List.mem_map.mpr ⟨f, hff, rfl⟩)
+
+/-- FIRST WINS for values: the value comes from the first record that has the slot. -/
+theorem extend_first_wins {V : Type} (none : Str → V) (ver : V) (name : Option Str)
+    (r : Rec V) (others pre post : List (Rec V)) (x : Rec V) (k : Str) (v : V) (hnr : noReserved (r :: others))
+    (hsplit : r :: others = pre ++ x :: post) (hpre : ∀ p ∈ pre, k ∉ keys p.slots) (hx : alGet x.slots k = some v)
+    (hk : k ∈ (mergeFields false ((r :: others).map (·.fields))).map (·.2) ∨ k ∈ reservedNames)
+    (hv : k ≠ versionName) :
+    alGet (extendRecord none ver false name r others).slots k = some v := by
+  apply extend_values none ver false name r others k v hnr hk hv
+  simp only [Bool.false_eq_true, if_false]
+  rw [hsplit]
+  exact alGet_flatMap_first (·.slots) pre post x k v hpre hx
+
+/-- LAST WINS for values under `replace=True`: the value comes from the last record that has the slot. -/
+theorem extend_last_wins {V : Type} (none : Str → V) (ver : V) (name : Option Str)
+    (r : Rec V) (others pre post : List (Rec V)) (x : Rec V) (k : Str) (v : V) (hnr : noReserved (r :: others))
+    (hsplit : r :: others = pre ++ x :: post) (hpost : ∀ p ∈ post, k ∉ keys p.slots) (hx : alGet x.slots k = some v)
+    (hk : k ∈ (mergeFields true ((r :: others).map (·.fields))).map (·.2) ∨ k ∈ reservedNames)
+    (hv : k ≠ versionName) :
+    alGet (extendRecord none ver true name r others).slots k = some v := by
+  apply extend_values none ver true name r others k v hnr hk hv
+  simp only [if_true]
+  rw [hsplit]
+  have : (pre ++ x :: post).reverse = post.reverse ++ x :: pre.reverse := by simp
+  rw [this]
+  exact alGet_flatMap_first (·.slots) post.reverse pre.reverse x k v
+    (fun p hp => hpost p (List.mem_reverse.mp hp)) hx
+
+/-- The extended record's descriptor: merged fields, the first record's name unless renamed; its slots are the
+    merged names followed by the reserved metadata fields; `_version` is re-stamped. -/
+theorem extend_shape {V : Type} (none : Str → V) (ver : V) (replace : Bool) (name : Option Str)
+    (r : Rec V) (others : List (Rec V)) (hnr : noReserved (r :: others)) :
+    let out := extendRecord none ver replace name r others
+    out.name = name.getD r.name ∧
+    out.fields = mergeFields replace ((r :: others).map (·.fields)) ∧
+    keys out.slots = out.fields.map (·.2) ++ reservedNames ∧
+    alGet out.slots versionName = some ver := by
+  have hnores : ∀ n ∈ (mergeFields replace ((r :: others).map (·.fields))).map (·.2), n ∉ reservedNames := by
+    intro n hn
+    rw [mem_mergeFields_names] at hn
+    obtain ⟨f, hf, rfl⟩ := List.mem_map.mp hn
+    obtain ⟨fs, hfs, hff⟩ := List.mem_flatMap.mp hf
+    obtain ⟨x, hx, rfl⟩ := List.mem_map.mp hfs
+    exact hnr x hx f.2 (List.mem_map.mpr ⟨f, hff, rfl⟩)
+  have hkeys := keys_slotTypes _ hnores
+  have hfo : firstOcc ((mergeFields replace ((r :: others).map (·.fields))).map (·.2)) =
+      (mergeFields replace ((r :: others).map (·.fields))).map (·.2) := by
+    apply firstOcc_nodup_eq
+    have e : (mergeFields replace ((r :: others).map (·.fields))).map (·.2) = keys (mergeMap replace ((r :: others).map (·.fields))) := by
+      simp [mergeFields, keys, List.map_map, Function.comp_def]
+    rw [e, keys_mergeMap]; exact firstOcc_nodup _
+  refine ⟨rfl, rfl, ?_, ?_⟩
+  · show keys (extendRecord none ver replace name r others).slots = _
+    unfold extendRecord
+    rw [keys_initFromDict, hkeys, hfo]
+    rfl
+  · unfold extendRecord
+    apply alGet_initFromDict_version
+    rw [hkeys]
+    exact List.mem_append_right _ (by decide)
+
+end FlowRecord.Compose
